@@ -756,7 +756,7 @@ package hashgraph
 // Pending rounds queue and block production (C02)
 
 // wf: sortedItems is strictly ascending by Index and lists exactly the values of items, each under its own index.
-//@ ghost func (c *PendingRoundsCache) wf() bool { return c.items != nil && len(c.sortedItems) < 4611686018427387904 && (forall i int, j int :: 0 <= i && i < j && j < len(c.sortedItems) ==> c.sortedItems[i].Index < c.sortedItems[j].Index) && (forall k int :: 0 <= k && k < len(c.sortedItems) ==> c.sortedItems[k] != nil && __allocated(c.sortedItems[k]) && __in(c.sortedItems[k].Index, c.items) && c.items[c.sortedItems[k].Index] == c.sortedItems[k]) && (forall r int :: __in(r, c.items) ==> c.items[r] != nil && __allocated(c.items[r]) && c.items[r].Index == r && (exists k int :: 0 <= k && k < len(c.sortedItems) && c.sortedItems[k] == c.items[r])) }
+//@ ghost func (c *PendingRoundsCache) wf() bool { return c.items != nil && len(c.sortedItems) == len(c.items) && (forall i int, j int :: 0 <= i && i < j && j < len(c.sortedItems) ==> c.sortedItems[i].Index < c.sortedItems[j].Index) && (forall k int :: 0 <= k && k < len(c.sortedItems) ==> c.sortedItems[k] != nil && __allocated(c.sortedItems[k]) && __in(c.sortedItems[k].Index, c.items) && c.items[c.sortedItems[k].Index] == c.sortedItems[k]) && (forall r int :: __in(r, c.items) ==> c.items[r] != nil && __allocated(c.items[r]) && c.items[r].Index == r && (exists k int :: 0 <= k && k < len(c.sortedItems) && c.sortedItems[k] == c.items[r])) }
 
 //@ func (c *PendingRoundsCache) Queued(round int) bool
 //@   requires c != nil && c.items != nil
@@ -767,7 +767,7 @@ package hashgraph
 //@   requires c != nil && c.wf() && pendingRound != nil && !__in(pendingRound.Index, c.items)
 //@   modifies c.items[*], c.sortedItems
 //@   ensures[map]   forall r int :: __in(r, c.items) == (old(__in(r, c.items)) || r == pendingRound.Index) && c.items[r] == __ite(r == pendingRound.Index, pendingRound, old(c.items[r]))
-//@   ensures[len]   len(c.sortedItems) == old(len(c.sortedItems)) + 1
+//@   ensures[len]   len(c.sortedItems) == old(len(c.sortedItems)) + 1 && len(c.items) == old(len(c.items)) + 1
 //@   ensures[asc]   forall i int, j int :: 0 <= i && i < j && j < len(c.sortedItems) ==> c.sortedItems[i].Index < c.sortedItems[j].Index
 //@   ensures[in]    forall k int :: 0 <= k && k < len(c.sortedItems) ==> c.sortedItems[k] != nil && __in(c.sortedItems[k].Index, c.items) && c.items[c.sortedItems[k].Index] == c.sortedItems[k]
 //@   ensures[onto]  forall r int :: __in(r, c.items) ==> (exists k int :: 0 <= k && k < len(c.sortedItems) && c.sortedItems[k] == c.items[r])
@@ -794,7 +794,11 @@ package hashgraph
 //@   loop 1 invariant[removed] forall k int :: 0 <= k && k < __idx() ==> !__in(processedRounds[k], c.items)
 //@   loop 1 invariant[kept]    forall r int :: __in(r, c.items) ==> old(__in(r, c.items)) && c.items[r] == old(c.items[r])
 //@   loop 1 invariant[others]  forall r int :: old(__in(r, c.items)) && !__in(r, c.items) ==> (exists k int :: 0 <= k && k < __idx() && processedRounds[k] == r)
-//@   loop 2 invariant[vals]    !(newSortedItems == nil) && (forall k int :: 0 <= k && k < len(newSortedItems) ==> newSortedItems[k] != nil && __in(newSortedItems[k].Index, c.items) && c.items[newSortedItems[k].Index] == newSortedItems[k])
+//@   ensures[wf]      c.wf()
+//@   loop 2 invariant[vals]    !(newSortedItems == nil) && len(newSortedItems) == __iter() && (forall k int :: 0 <= k && k < len(newSortedItems) ==> newSortedItems[k] != nil && __allocated(newSortedItems[k]) && __in(newSortedItems[k].Index, c.items) && c.items[newSortedItems[k].Index] == newSortedItems[k] && __vis(newSortedItems[k].Index))
+//@   loop 2 invariant[nodup]   forall i int, j int :: 0 <= i && i < j && j < len(newSortedItems) ==> newSortedItems[i].Index != newSortedItems[j].Index
+//@   loop 2 invariant[onto]    forall r int :: __vis(r) ==> (exists k int :: 0 <= k && k < len(newSortedItems) && newSortedItems[k] == c.items[r])
+//@   loop 2 invariant[items]   forall r int :: __in(r, c.items) ==> c.items[r] != nil && __allocated(c.items[r]) && c.items[r].Index == r
 
 //@ iface func (s Store) LastBlockIndex() int
 //@   modifies nothing
@@ -806,7 +810,8 @@ package hashgraph
 
 //@ func (h *Hashgraph) ProcessDecidedRounds() error
 //@   requires h != nil && h.PendingRounds != nil && h.PendingRounds.wf() && h.MemoOK()
-//@   ensures[memo] h.MemoOK()
+//@   ensures[memo]  h.MemoOK()
+//@   ensures[queue] h.PendingRounds == old(h.PendingRounds) && h.PendingRounds.wf() && h.PendingSignatures == old(h.PendingSignatures)
 //@   loop 1 invariant[memo] h.MemoOK()
 //@   callback commitCallback modifies any Block.Body, anymap map[string]string, G_blocks(h.Store), G_bodies(h.Store), G_lastBlock(h.Store), G_pset(h.Store), G_psetOK(h.Store), G_rep(h.Store), G_fault(h.Store), h.AnchorBlock, anyptr int
 //@   call NewBlockFromFrame assert[index]   __arg(0) == G_lastBlock(h.Store) + 1
@@ -857,11 +862,15 @@ package hashgraph
 //@   modifies any logrus.Logger.Level
 //@   ensures[memo] ret0 != nil && __fresh(ret0) && ret0.MemoOK() && ret0.Store == store
 
+// ConsensusReady: what every stage of the pipeline needs from the hashgraph object (kept by every stage).
+//@ ghost func (h *Hashgraph) ConsensusReady() bool { return h.MemoOK() && h.PendingRounds != nil && h.PendingRounds.wf() && h.PendingSignatures != nil && h.PendingSignatures.items != nil }
+
 // The consensus pipeline runs in this order after a successful insertion, each stage only after the previous
 // one succeeded; a rejected event runs none of them.
 //@ func (h *Hashgraph) InsertEventAndRunConsensus(event *Event, setWireInfo bool) error
 //@   requires h != nil && event != nil && len(event.Body.Parents) == 2 && h.PendingSignatures != nil && h.PendingSignatures.items != nil && h.MemoOK() && h.PendingRounds != nil && h.PendingRounds.wf()
 //@   ensures[memo] h.MemoOK()
+//@   ensures[ready] h.ConsensusReady()
 //@   ensures[rejected] ret0 != nil && !__called("DivideRounds") ==> __lastret("InsertEvent", 0) != nil
 //@   call DivideRounds         assert[after-insert]  __lastret("InsertEvent", 0) == nil
 //@   call DecideFame           assert[after-divide]  __called("DivideRounds") && __lastret("DivideRounds", 0) == nil
@@ -879,7 +888,6 @@ package hashgraph
 //@   call SetRound#2 assert[round-stored]  __arg(0) == RoundV(h, hash) && __arg(1) == roundInfo
 //@   call AddCreatedEvent assert[witness-value] __recv() == roundInfo && __arg(0) == hash && __arg(1) == WitV(h, hash) && (roundInfo == G_rounds(h.Store)[RoundV(h, hash)] || __fresh(roundInfo))
 //@   call SetLamportTimestamp assert[timestamp-value] __recv() == ev && (!G_miss(h.Store) ==> __arg(0) == LTV(h, hash))
-//@   call Set assume[size] len(h.PendingRounds.sortedItems) < 4611686018427387903
 //@   call Set assert[not-decided] !roundInfo.decided && (h.roundLowerBound == nil || roundNumber > *h.roundLowerBound) && !__in(roundNumber, h.PendingRounds.items)
 //@   loop 1 invariant[memo] h.MemoOK() && h.PendingRounds == old(h.PendingRounds) && h.PendingRounds.wf()
 
